@@ -176,7 +176,7 @@ fn check_chain(ctx: &Ctx, rt: &tokio::runtime::Runtime, fac: &versatiles_pipelin
 pub fn run(ctx: Arc<Ctx>) {
 	ctx.rule(
 		"filter_zoom: all 81 (min,max) over {absent,0,1,2,3,5,31,32,255}; filter_bbox: every valid box from the lon/lat alphabet of C15 (incl. points, slivers, antimeridian/pole touching) ; chains of 2 (all zoom x representative bbox, bbox x bbox; thorough: every 17th x every 17th box of the alphabet) and 3 filters; \
-		 sources: MemSource (full z0..4 + sparse z5 + both corners of z31), from_debug (generator, all coordinates), overlays whose members cover different zoom levels / halves of the world (half of the chains), real versatiles / pmtiles / tar / mbtiles files written by the repository (a quarter of the chains each for versatiles and pmtiles, an eighth for tar and mbtiles); every coordinate z<=4 + sparse + corners probed by lookup, streams over whole levels. invalid arguments (reversed, out of range, 3/5 elements, nan, text, negative zoom, a scalar given twice with conflicting values) must be Err at build time. \
+		 sources: MemSource (full z0..4 + sparse z5 + both corners of z31), a source whose deepest level is a small region below world-wide upper levels (plain and as an overlay of its parts; half of the chains), from_debug (generator, all coordinates), overlays whose members cover different zoom levels / halves of the world (half of the chains), real versatiles / pmtiles / tar / mbtiles files written by the repository (a quarter of the chains each for versatiles and pmtiles, an eighth for tar and mbtiles); every coordinate z<=4 + sparse + corners probed by lookup, streams over whole levels. invalid arguments (reversed, out of range, 3/5 elements, nan, text, negative zoom, a scalar given twice with conflicting values) must be Err at build time. \
 		 oracle with a don't-care band of 1e-6 tile on geographic edges. non-trivial = chains that pass some but not all probe tiles",
 	);
 	let work = ct::WorkDir::new("c09");
@@ -271,11 +271,25 @@ pub fn run(ctx: Arc<Ctx>) {
 	};
 	let (ctxr, cr, tr, pr, gpr, wpath): (&Ctx, _, _, _, _, _) = (&ctx, &chains, &tiles, &probes, &gen_probes, work.0.clone());
 	let lowr = &low;
+	let regional: TileMap = {
+		let mut t: TileMap = tiles.iter().filter(|(k, _)| k.0 <= 3).map(|(k, v)| (*k, v.clone())).collect();
+		t.insert((6, 35, 22), b"6/35/22".to_vec());
+		t.insert((6, 36, 22), b"6/36/22".to_vec());
+		t
+	};
+	let regr = &regional;
 	par_for(chains.len(), |ci| {
 		let chain = &cr[ci];
 		let rt = tokio::runtime::Builder::new_multi_thread().worker_threads(1).enable_all().build().unwrap();
-		let fac = pipeline::factory(vec![MemSource::new("m", tr.clone(), TileFormat::BIN, TileCompression::Uncompressed)], &wpath);
+		let fac = pipeline::factory(vec![MemSource::new("m", tr.clone(), TileFormat::BIN, TileCompression::Uncompressed), MemSource::new("r", regr.clone(), TileFormat::BIN, TileCompression::Uncompressed)], &wpath);
 		check_chain(ctxr, &rt, &fac, "from_container filename=\"mem:0\"", Some(tr), chain, pr, "filter over MemSource");
+		if ci % 2 == 0 {
+			// a source whose deepest level is a small region while its upper levels span the world (a regional extract
+			// with world-wide overview levels), plain and as an overlay of its two parts
+			let rp: Vec<Key> = regr.keys().copied().chain([(6u8, 35u32, 23u32), (6, 0, 0), (7, 70, 44)]).collect();
+			let v = if ci % 4 == 0 { "from_container filename=\"mem:1\"".to_string() } else { "from_overlayed [ from_container filename=\"mem:1\" | filter_zoom min=4, from_container filename=\"mem:1\" | filter_zoom max=3 ]".to_string() };
+			check_chain(ctxr, &rt, &fac, &v, Some(regr), chain, &rp, "filter over a source with a regional deepest level");
+		}
 		ctxr.transition(1);
 		if ci % 4 == 0 {
 			check_chain(ctxr, &rt, &fac, "from_debug format=pbf", None, chain, gpr, "filter over from_debug");
